@@ -274,3 +274,61 @@ theorem valueIntoL_eq_fold (acc : TV) : ∀ ts : List Tree,
 end
 
 end FV
+
+namespace FV
+namespace TV
+
+/-- the three ways `_reduce_trailing_bits` can go -/
+theorem reduce_cases (e : Enc) (v : TV) :
+    (v.bits = [] ∧ reduce e v = .ok v) ∨
+    (v.bits ≠ [] ∧ v.bits.length % 8 ≠ 0 ∧ reduce e v = .error .conv) ∨
+    (v.bits ≠ [] ∧ v.bits.length % 8 = 0 ∧
+      match v.val with
+      | .none => reduce e v = .ok ⟨.bytes (pack v.bits), []⟩
+      | .bytes b => reduce e v = .ok ⟨.bytes (b ++ pack v.bits), []⟩
+      | .text s =>
+        match encode e s with
+        | .error x => reduce e v = .error x
+        | .ok b => reduce e v = .ok ⟨.bytes (b ++ pack v.bits), []⟩) := by
+  by_cases hb : v.bits = []
+  · left
+    exact ⟨hb, by simp [reduce, hb]⟩
+  · right
+    have hne : v.bits.isEmpty = false := by
+      cases hbb : v.bits with
+      | nil => exact absurd hbb hb
+      | cons x xs => rfl
+    by_cases hl : v.bits.length % 8 = 0
+    · right
+      refine ⟨hb, hl, ?_⟩
+      cases hv : v.val with
+      | none => simp [reduce, hne, hl, hv]
+      | bytes b => simp [reduce, hne, hl, hv]
+      | text s =>
+        simp only []
+        cases hes : encode e s with
+        | error x => simp [reduce, hne, hl, hv, hes]
+        | ok b => simp [reduce, hne, hl, hv, hes]
+    · left
+      exact ⟨hb, hl, by simp [reduce, hne, hl]⟩
+
+/-- a flushed non-empty value always has a payload -/
+theorem reduce_val_ne_none {e : Enc} {v v' : TV} (h : reduce e v = .ok v') (hne : v.type ≠ .empty) :
+    v'.val ≠ .none := by
+  rcases reduce_cases e v with ⟨hb, hr⟩ | ⟨_, _, hr⟩ | ⟨_, _, hr⟩
+  · rw [hr] at h; cases h
+    intro hv
+    apply hne
+    simp [type, hv, hb]
+  · rw [hr] at h; cases h
+  · cases hv : v.val with
+    | none => simp only [hv] at hr; rw [hr] at h; cases h; simp
+    | bytes b => simp only [hv] at hr; rw [hr] at h; cases h; simp
+    | text s =>
+      simp only [hv] at hr
+      cases hes : encode e s with
+      | error x => simp only [hes] at hr; rw [hr] at h; cases h
+      | ok b => simp only [hes] at hr; rw [hr] at h; cases h; simp
+
+end TV
+end FV
